@@ -78,7 +78,7 @@ def gen_episode(rng, long=False):
     names = ["a", "b", "c"]
     for _ in range(rng.randint(6, 40 if long else 18)):
         path = rng.choice(PATHS * 4 + ODD_PATHS)
-        method = rng.choice(["GET", "GET", "POST", "POST", "DELETE", "PUT"])
+        method = rng.choice(["GET", "GET", "POST", "POST", "DELETE", "PUT", "OPTIONS", "HEAD", "PATCH", "OPTIONS"])
         remote, pp = peer(rng, allow + deny)
         if path.endswith("/add"):
             body = rng.choice(["add:%s:good" % rng.choice(names), "add:%s:bad" % rng.choice(names), "add:-:good", "bad", "none"])
@@ -180,7 +180,7 @@ def check(ctx):
     ctx.cov.update({
         "evaluations": sum(len(C.op_lines(e)) for e in episodes),
         "distinct_nontrivial": len(nontriv),
-        "rule": "episodes: one mux configuration (token or none; allow/deny lists of v4/v6 CIDRs and single addresses, overlapping, sometimes with a malformed entry) and 6..%d requests over all routes and odd paths, 4 methods, 16 Authorization spellings, v4/v6/IPv4-mapped/unparsable peers inside and outside the lists, forged X-Forwarded-For / X-Real-IP, valid and malformed bodies; balancer state digested before/after every request. non-trivial = episode containing refused-by-IP, 401 and served requests" % (40 if ctx.thorough() else 18),
+        "rule": "episodes: one mux configuration (token or none; allow/deny lists of v4/v6 CIDRs and single addresses, overlapping, sometimes with a malformed entry) and 6..%d requests over all routes and odd paths, 7 methods (incl. OPTIONS / HEAD, which no rule exempts), 16 Authorization spellings, v4/v6/IPv4-mapped/unparsable peers inside and outside the lists, forged X-Forwarded-For / X-Real-IP, valid and malformed bodies; balancer state digested before/after every request. non-trivial = episode containing refused-by-IP, 401 and served requests" % (40 if ctx.thorough() else 18),
         "episodes": len(episodes), "traces_validated_against_impl": len(episodes), "answer_classes": classes,
         "samples": [episodes[-1][:8]],
     })
